@@ -2,6 +2,8 @@ import RbV.Basic.Codec
 import RbV.Basic.AlignCodec
 import RbV.Ref.Gotoh
 import RbV.Ref.Banded
+import RbV.Model.Band
+import RbV.Model.BandedDP
 /-! Driver for property C02: banded alignment sound, exact when the band is the whole matrix, budget guard.
 
 `c02 const => min:<MIN_SCORE>`
@@ -75,7 +77,38 @@ def splitGapShape (sc : Sc) (cl : Clip) (x y : List Nat) (o : Out) : Bool :=
       ((trailing .ins core ≥ 2 && o.ye < y.length) || (trailing .del core ≥ 2 && o.xe < x.length))
   | none => false
 
-def checkCall (sc : Sc) (cl : Clip) (k : Nat) (idx : Nat) (c : Call) (outS : String) : Except String (List String) :=
+/-- `a.b+a.b+…` (`-` = empty) -/
+def parsePairs (s : String) : Option (List (Nat × Nat)) :=
+  parseList (fun t => match t.splitOn "." with
+    | [a, b] => do let a ← parseNat a; let b ← parseNat b; pure (a, b)
+    | _ => none) s '+'
+
+def field (pre : String) (rest : List String) : Option String :=
+  (rest.find? (·.startsWith pre)).map (fun s => (s.drop pre.length).toString)
+
+/-- Band mirror next to the code: the harness prints the band the aligner holds after the call (`bd:`), the k-mer matches
+and the match path the entry point handed to `Band::create_from_match_path` (`mt:`, `pt:`); the model is run on the
+latter.  `band=impl` / `drift-band` (a difference between model and code is not a violation of the property, which does
+not fix the band); `none` = the fields cannot be parsed. -/
+def bandTags (cl : Clip) (k w : Nat) (x y : List Nat) (rest : List String) : Option (List String × Option Model.Band.Band) :=
+  match field "bd:" rest with
+  | none => none
+  | some "skip" => some ([], none)
+  | some bd =>
+    match bd.splitOn ":", (field "mt:" rest).bind parsePairs, (field "pt:" rest).bind (parseList parseNat · '+') with
+    | [rs, cs, rg], some ms, some path =>
+      match parseNat rs, parseNat cs, parsePairs rg with
+      | some rows, some cols, some ranges =>
+        let b := Model.Band.createFromMatchPath x.length y.length k w cl path ms
+        let same := b.rows = rows ∧ b.cols = cols ∧ b.ranges = ranges
+        let emptyCol := b.ranges.any (fun p => p.1 ≥ p.2)
+        some ((if same then ["band=impl"] else ["drift-band"])
+          ++ (if ms.isEmpty then [] else if emptyCol then ["band-has-empty-column"] else ["band-all-columns"])
+          ++ (if Model.Band.numCells b = (x.length + 1) * (y.length + 1) then ["band=matrix"] else []), some b)
+      | _, _, _ => none
+    | _, _, _ => none
+
+def checkCall (sc : Sc) (cl : Clip) (k w : Nat) (idx : Nat) (c : Call) (outS : String) : Except String (List String) :=
   match entryMode c.entry with
   | none => .error "bad-op entry"
   | some mode =>
@@ -101,13 +134,26 @@ def checkCall (sc : Sc) (cl : Clip) (k : Nat) (idx : Nat) (c : Call) (outS : Str
       else if !acceptBanded sc cl' filt x y full exact o then .error ("reject " ++ pre ++ "acceptBanded-false")
       else if rest.contains "h:differs" then .error ("reject " ++ pre ++ "history-dependent")
       else if !rest.contains "h:same" then .error "bad-op no-history-field"
-      else
+      else match bandTags cl' k w x y rest with
+      | none => .error "bad-op band-fields"
+      | some (btags, mb) =>
+        -- mirror of `compute_alignment` on the model band, next to the code: whole result (drift, never a violation)
+        let mtags := match mb with
+          | none => []
+          | some b =>
+            match Model.BandedDP.computeAlignment sc cl' x y b with
+            | none => ["drift-band-model-no-termination"]
+            | some r =>
+              -- `local`/`semiglobal*` filter the clip operations out of the result
+              let r : Out := if filt then { r with ops := r.ops.filter (fun a => match a with | .core _ => true | _ => false) } else r
+              if r == o then ["band-model=impl"]
+                        else if r.score == o.score then ["drift-band-model-path"] else ["drift-band-model"]
         let core := coreOps o.ops
         -- coverage only: how often the band loses the optimum (never a violation)
         let cmp := if !full && x.length ≤ 12 && y.length ≤ 12 then
             (if o.score = opt sc cl' x y then ["band=opt"] else ["band<opt"]) else []
         .ok ((if !x.isEmpty && !y.isEmpty && !core.isEmpty then ["nt"] else [])
-          ++ [c.entry] ++ cmp
+          ++ [c.entry] ++ cmp ++ btags ++ mtags
           ++ (if full then ["fullband"] else ["banded"])
           ++ (if !small then ["big"] else [])
           ++ (if x.isEmpty || y.isEmpty then ["emptyseq"] else [])
@@ -152,7 +198,7 @@ def verdict (toks : List String) (out : String) : String :=
         let rec go' (i : Nat) (cs : List Call) (os : List String) (tags : List String) : Except String (List String) :=
           match cs, os with
           | c :: cs, o :: os =>
-            match checkCall sc cl k i c o with
+            match checkCall sc cl k w i c o with
             | .error e => .error e
             | .ok t => go' (i + 1) cs os (tags ++ t)
           | _, _ => .ok tags
